@@ -311,6 +311,10 @@ structure Obs where
   started : Bool
   /-- … and at that moment its input file held the complete formula, closed -/
   inputReady : Bool
+  /-- the process ran to completion (`communicate` was entered) -/
+  ran : Bool
+  /-- every temporary path the call created, oldest first (path 0 = first file = input file) -/
+  created : List Nat
   deriving Repr
 
 def liftErr {α} : Except Err α → Except Exn α
@@ -352,7 +356,9 @@ def observe (f : Iface) (b : Beh) (r : RState × Option Exn) : Obs :=
     refused := r.1.refused,
     trace := r.1.trace,
     started := r.1.proc.isSome,
-    inputReady := r.1.inputReady }
+    inputReady := r.1.inputReady,
+    ran := r.1.ran,
+    created := r.1.created }
 
 /-- `_satsolve_…(F, cmd)` of variant `v` with solver behaviour `b` under fault schedule `sched` -/
 def runProg (v : Variant) (f : Iface) (b : Beh) (sched : List Fault) : Obs :=
@@ -370,7 +376,7 @@ def solveW (v : Variant) (installed : List String) (beh : Iface → String → B
     (cmd sameas : Option String) : Obs :=
   match selectInterface cmd sameas installed with
   | .error e => { outcome := .error (.py e), left := [], refused := [], trace := [], started := false,
-                  inputReady := false }
+                  inputReady := false, ran := false, created := [] }
   | .ok (f, c) => runProg v f (beh f c) sched
 
 /-- `CNF.is_satisfiable` = `sat_solve(...)[0]` -/
